@@ -625,9 +625,23 @@ def rule_h10(F):
     return r
 
 
+def rule_h11(F):
+    """Script constants are released exactly once, after the last handle: a read of (a field of) a constant works on a copy that is
+    owned by exactly one frame of the lowerer - a copy that is dropped by hand while still registered in a frame is dropped twice,
+    which takes an owner away from the constant's payload at every evaluation (the payload is freed while handles can still call the
+    function).  Shared with C03.F7 (who may emit a drop)."""
+    from . import c03
+    r = c03.rule_f7(F)
+    r.rule = "C11.H11"
+    r.desc = "copies of constants are dropped once: emit_drop only on variables taken out of their frame (no extra release of a constant's payload per evaluation)"
+    for v in r.violations:
+        v.rule = "C11.H11"
+    return r
+
+
 def rules(ctx):
     F = ctx["F"]
-    return [rule_h1(F), rule_h2(F), rule_h3(F), rule_h4(F), rule_h5(F), rule_h7(F), rule_h8(F), rule_h9(F), rule_h10(F)]
+    return [rule_h1(F), rule_h2(F), rule_h3(F), rule_h4(F), rule_h5(F), rule_h7(F), rule_h8(F), rule_h9(F), rule_h10(F), rule_h11(F)]
 
 
 def thorough_rules(ctx):
